@@ -544,6 +544,10 @@ def hashseed_task(t, res):
 
 # ------------------------------------------------------------------------------------------------ driver
 def any_task(t, res):
+    if t["kind"] == "history":
+        from . import c18_hist
+
+        return c18_hist.history_task(t, res)
     {"cfg": cfg_task, "diff": diff_task, "coll": coll_task, "hashseed": hashseed_task}[t["kind"]](t, res)
 
 
@@ -558,6 +562,10 @@ def run(ctx):
     tasks += [dict(kind="coll", cspecs=[[c[0], c[1], list(c[2])] for c in cspecs[i::4]]) for i in range(4)]
     tasks += [dict(kind="diff")]
     tasks += [dict(kind="hashseed", hashseed=h, tier=ctx.tier) for h in HASHSEEDS]
+    from . import c18_hist
+
+    hist_depth = 3 if ctx.quick else 4
+    tasks += [dict(kind="history", pair=pi, first=f, depth=hist_depth) for pi in range(2) for f in c18_hist.ALPHABET]
     ctx.pmap(MOD, "any_task", tasks)
     res = ctx.res
 
@@ -626,12 +634,14 @@ def run(ctx):
         one_field_pairs=n_pairs, collection_pairs=n_cpairs, distinct_hashes=len(by_hash),
         hashseed_children=[(p[0], p[2]) for p in probes], hashseed_distinct_str_hashes=len({p[1] for p in probes}),
         hashseed_configs=len(hs_cfg), hashseed_collections=len(hs_coll),
+        live_object_histories=dict(alphabet=c18_hist.ALPHABET, depth=hist_depth, start_points=2, histories=res.counters.get("histories", 0)),
         values=dict(name=NAMES + NAME_EXTRA, grid_n=GRIDS + GRID_EXTRA, n_mazes=NMAZES + N_EXTRA, generators=generators(),
                     kwargs_per_generator={g: len(KWARGS.get(g, [{}])) for g in generators()}, endpoint_options=len(ENDPOINTS),
                     seeds=["default", 0, 123], filter_lists=len(FILTERS) + 1),
     )
     ctx.rule = ("every config of the stated sub-lattice is built, hashed, named, serialized and loaded directly and through JSON text; "
-                "every pair differing in exactly one field is compared by hash; every star config is re-hashed in 5 child interpreters; "
+                "every pair differing in exactly one field is compared by hash; every star config is re-hashed in 5 child interpreters; every sequence of "
+                "<= 3 (thorough 4) observations / in-place field changes on one live config object is compared with a fresh config of the same fields; "
                 "distinct = distinct configs with non-default kwargs/coordinate endpoints/filters, distinct one-field pairs, "
                 "distinct configs compared across interpreters")
     ctx.exhaustive = True
@@ -646,6 +656,10 @@ def run(ctx):
 # ------------------------------------------------------------------------------------------------ replay
 def replay(d, res):
     k = d["kind"]
+    if k == "history":
+        from . import c18_hist
+
+        return c18_hist.replay(d, res)
     if k == "cfg":
         judge_cfg(tuple(d["spec"]), res)
     elif k == "coll":
